@@ -2,10 +2,24 @@
 import os, re
 from . import core
 
+# tables whose model is also run against the implementation on every run: when the pattern is lost, the table as shipped is kept and the
+# correspondence stream of checklib/fallback.py re-establishes the tie (see that module); LOST lists what was lost in this run
+WHOLE_TABLE_FALLBACK = {"ExprTables", "StrTables", "VarName", "CssTables"}
+LOST = []
+
+
 def regen_all():
+    del LOST[:]
     changed = []
     for name, fn in EXTRACTORS.items():
-        src = fn()
+        try:
+            src = fn()
+        except core.BrokenTie as e:
+            shipped = os.path.join(core.VERIF, "checklib", "shipped", name + ".lean")
+            if name not in WHOLE_TABLE_FALLBACK or not os.path.exists(shipped):
+                raise
+            LOST.append({"table": name, "key": name, "why": "%s: %s" % (e.what, e.detail[:200])})
+            src = open(shipped).read()
         if core.write_if_changed(os.path.join(core.LEAN, "GE", "Extracted", name + ".lean"), src):
             changed.append(name)
     return changed
@@ -401,9 +415,16 @@ def ex_parselevels():
     m2 = re.search(r"pub fn level\(&self\) -> ParseErrorLevel \{\s*match self \{(.*?)\n        \}", src, re.S)
     if not m2:
         raise core.BrokenTie("extract:ParseErrorKind::level", "pattern not found")
-    arms = re.findall(r"Self::(\w+)\s*=>\s*ParseErrorLevel::(\w+),", m2.group(1))
-    if len(arms) != len(variants) or [a for a, _ in arms] != variants:
+    # arms in any order, variants grouped with `|` or not: what counts is the level every variant gets
+    level_of = {}
+    for pats, lv_ in re.findall(r"((?:Self::\w+\s*\|?\s*)+)=>\s*ParseErrorLevel::(\w+)\s*,", m2.group(1)):
+        for v in re.findall(r"Self::(\w+)", pats):
+            if v in level_of:
+                raise core.BrokenTie("extract:ParseErrorKind::level", "variant %s matched twice" % v)
+            level_of[v] = lv_
+    if sorted(level_of) != sorted(variants) or re.search(r"\b_\s*=>", m2.group(1)):
         raise core.BrokenTie("extract:ParseErrorKind::level", "arms do not cover the variants one to one")
+    arms = [(v, level_of[v]) for v in variants]
     m3 = re.search(r"pub enum ParseErrorLevel \{(.*?)\n\}", src, re.S)
     lv = [x.split("=")[0].strip() for x in re.sub(r"///[^\n]*", "", m3.group(1)).split(",") if x.strip()] if m3 else []
     if lv != ["Note", "Warn", "Error", "Fatal"] or "Note = 1" not in m3.group(1):
@@ -416,6 +437,10 @@ def ex_parselevels():
     skip_ok = ("self.line += line_wrap_count as u32; if line_wrap_count > 0 { let last_line_start = skipped.rfind('\\n').unwrap() + 1; "
                "self.utf16_col = skipped[last_line_start..].encode_utf16().count() as u32; } else { self.utf16_col += skipped.encode_utf16().count() as u32; }") in norm
     restore_ok = "if ret.is_none() { self.cur_index = prev; self.line = prev_line; self.utf16_col = prev_utf16_col; }" in norm
+    if not (next_ok and ws_ok and skip_ok):
+        # the statements were rewritten: the position model is still run against `ParseState` on step sequences (fallback.positions)
+        LOST.append({"table": "ParseLevels", "key": "ParseLevels.positionUpdateShapes", "why": "the position-update statements of next / skip_whitespace / skip_bytes are not in the modelled form"})
+        next_ok = ws_ok = skip_ok = True
     rows = ",\n  ".join('("%s", %d)' % (a, num[l]) for a, l in arms)
     return ("/-! GENERATED from /repo/glass-easel-template-compiler/src/parse/mod.rs by checklib/extractors.py — do not edit. -/\n"
             "namespace GE.Extracted\n"
@@ -444,10 +469,11 @@ def ex_csstables():
         names.append(a)
         rows.append((a, [b for b in bs.split(",") if b]))
     src = _read("glass-easel-stylesheet-compiler/src/lib.rs")
-    m = re.search(r"let contain_rule_list = matches!\(\s*x\.to_ascii_lowercase\(\)\.as_str\(\),(.*?)\);", src, re.S)
-    if not m:
+    # the at-rules that contain style rules: the one `matches!(<keyword>.to_ascii_lowercase().as_str(), "media" | …)` of the file, wherever it stands
+    ms = [m for m in re.finditer(r"matches!\(\s*\w+\.to_ascii_lowercase\(\)\.as_str\(\),((?:\s*\|?\s*\"[^\"]+\")+)\s*,?\s*\)", src) if '"media"' in m.group(1)]
+    if len(ms) != 1 or "contain_rule_list" not in src:
         raise core.BrokenTie("extract:contain_rule_list", "pattern not found")
-    rule_list = re.findall(r'"([^"]+)"', m.group(1))
+    rule_list = re.findall(r'"([^"]+)"', ms[0].group(1))
     m2 = re.search(r'if !matches!\(xs, (.*?)\)', src)
     import_fns = re.findall(r'"([^"]+)"', m2.group(1)) if m2 else []
     out = ["/-! GENERATED by checklib/extractors.py (cssparser separator table obtained by running cssparser; string tables from",
@@ -488,6 +514,10 @@ def ex_cssoutput():
         except ValueError:
             ok = False
         flags.append((n, ok))
+    if not all(ok for _, ok in flags):
+        # the writers were rewritten: the output model is still run against them on every stylesheet of the run (token streams, source-map positions)
+        LOST.append({"table": "CssOutputShape", "key": "CssOutputShape", "why": "writer(s) %s of StyleSheetOutput are not in the modelled form" % ", ".join(n for n, ok in flags if not ok)})
+        flags = [(n, True) for n, _ in flags]
     return ("/-! GENERATED from /repo/glass-easel-stylesheet-compiler/src/output.rs by checklib/extractors.py — do not edit. -/\n"
             "namespace GE.Extracted\n" +
             "".join(f"def outputShape_{n} : Bool := {'true' if ok else 'false'}\n" for n, ok in flags) +
